@@ -49,6 +49,8 @@ type StoreCase struct {
 	History *StoreHistory `json:"history,omitempty"`
 	// Scale: the case is a scale probe (records regenerated from the seed).
 	Scale *ScaleCase `json:"scale,omitempty"`
+	// Deep: the case is a deep probe (input rebuilt from shape and size).
+	Deep *DeepCase `json:"deep,omitempty"`
 }
 
 type ScaleCase struct {
@@ -126,7 +128,9 @@ var (
 // buildSites are the yield points of codec construction; they are not decode
 // steps (a first use after the instance was replaced builds codecs).
 var notDecodeSteps = map[string]bool{"reg.load": true, "reg.store": true, "reg.storeOrSwap": true, "struct.field": true,
-	"struct.fieldDone": true, "struct.index": true, "struct.done": true, "map.build": true, "struct.append": true}
+	"struct.fieldDone": true, "struct.index": true, "struct.done": true, "map.build": true, "struct.append": true,
+	"struct.size": true, "struct.descriptor": true, "map.size": true, "map.append": true, "slice.size": true, "slice.encode": true, "json.size": true, "json.encode": true,
+	"map.iter1": true, "map.iterN": true, "map.iterEnd": true}
 
 func stepHook(site string) {
 	if notDecodeSteps[site] {
@@ -1148,6 +1152,10 @@ func sigOf(v *Violation) string {
 // its history if it has one.
 func RunStoreCase(c *StoreCase) *Violation {
 	s := NewStoreSim()
+	if c.Deep != nil {
+		v, _ := s.deepCase(c.Type, c.Deep.Shape, c.Mode, c.Deep.Bytes, c.Deep.MaxStackMB, c.Cfg)
+		return v
+	}
 	if c.Scale != nil {
 		// the growth measurement involves the real clock: best of three tries
 		for try := 0; try < 3; try++ {
